@@ -63,6 +63,58 @@ std::string scratch_dir() {
   return g_scratch;
 }
 
+// --------------------------------------------------------------- memcheck ---
+// Errors memcheck reported in this process since the mark; the first report
+// of the log (error kind and innermost frames) goes into the message.
+static long g_vg_mark = 0;
+static long g_vg_log_offset = 0;
+static std::string vg_log_path() {
+  char buf[128];
+  snprintf(buf, sizeof buf, "/tmp/cmi-verif-vg.%d.log", (int)getpid());
+  return buf;
+}
+void valgrind_mark() {
+  g_vg_mark = valgrind_errors();
+  struct stat st;
+  g_vg_log_offset = stat(vg_log_path().c_str(), &st) == 0 ? (long)st.st_size : 0;
+}
+long valgrind_report(std::string &text) {
+  const long n = valgrind_errors() - g_vg_mark;
+  if (n <= 0)
+    return 0;
+  FILE *f = fopen(vg_log_path().c_str(), "r");
+  text.clear();
+  if (f) {
+    fseek(f, g_vg_log_offset, SEEK_SET);
+    char line[512];
+    int kept = 0;
+    while (kept < 5 && fgets(line, sizeof line, f)) {
+      // "==pid== text": drop the prefix and addresses
+      char *p = strstr(line, "== ");
+      std::string t = p ? p + 3 : line;
+      while (!t.empty() && (t.back() == '\n' || t.back() == ' '))
+        t.pop_back();
+      if (t.empty()) {
+        if (kept > 0)
+          break;
+        continue;
+      }
+      size_t a = t.find("0x");
+      if (a != std::string::npos) {
+        size_t e = t.find(':', a);
+        if (e != std::string::npos)
+          t.erase(a, e - a + 2);
+      }
+      text += (kept ? " | " : "") + t;
+      ++kept;
+    }
+    fclose(f);
+  }
+  if (text.empty())
+    text = "(no text in the memcheck log)";
+  return n;
+}
+
 // ---------------------------------------------------------------- watchdog ---
 // SIGALRM every 5 s: if the simulator's event sequence number has not moved
 // for WD_STALL seconds (a serial loop without scheduling points, or a blocked
@@ -603,6 +655,30 @@ int check_main(int argc, char **argv, Engine &engine) {
   // the value of the previous object of the same size. Switch the cache off
   // (tunables are read at process start, hence the re-exec) so that the
   // hostile fill of scrub_memory() reaches every allocation.
+  // VERIF_MODE=valgrind: the whole check (workers, re-run children, replay
+  // processes) runs under memcheck; the engine asks memcheck after every run
+  // whether it reported anything (valgrind_report)
+  if (getenv("VERIF_MODE") && std::string(getenv("VERIF_MODE")) == "valgrind" &&
+      !on_valgrind() && !getenv("VERIF_VALGRIND_STARTED")) {
+    setenv("VERIF_VALGRIND_STARTED", "1", 1);
+    setenv("VERIF_NO_REEXEC", "1", 1);
+    std::vector< char * > args;
+    static char a0[] = "valgrind", a1[] = "-q", a2[] = "--trace-children=yes",
+                a3[] = "--leak-check=no", a4[] = "--error-exitcode=0",
+                a5[] = "--log-file=/tmp/cmi-verif-vg.%p.log",
+                a6[] = "--num-callers=6", a7[] = "--max-stackframe=8388608",
+                a8[] = "--child-silent-after-fork=no";
+    char exe[PATH_MAX];
+    ssize_t el = readlink("/proc/self/exe", exe, sizeof exe - 1);
+    exe[el > 0 ? el : 0] = 0;
+    args = {a0, a1, a2, a3, a4, a5, a6, a7, a8, exe};
+    for (int k = 1; k < argc; ++k)
+      args.push_back(argv[k]);
+    args.push_back(nullptr);
+    execvp("valgrind", args.data());
+    fprintf(stderr, "cannot start valgrind\n");
+    return 2;
+  }
   if (!getenv("GLIBC_TUNABLES") && !getenv("VERIF_NO_REEXEC")) {
     setenv("GLIBC_TUNABLES", "glibc.malloc.tcache_count=0", 1);
     setenv("VERIF_NO_REEXEC", "1", 1);
